@@ -577,7 +577,7 @@ def run(ctx):
 def r10(ctx, fs):
     rid = 'C16.R10'
     ctx.rule(rid, 'numerals: in the arms of lexer::next that make an integer / rational token, a digit held in `ch` (at the entry of a digit arm, or just read there) is appended to a part of the '
-                  'literal before `ch` is read again or the function returns - on every CFG path the digit class admits (branches on ch decided by the class, as in R6)', floor=5)
+                  'literal before `ch` is read again or the function returns - on every CFG path the digit class admits (branches on ch decided by the class, as in R6)', floor=4)
     from .. import scan
     f = fs.fn('riddle::lexer::next')
     A = scan.Automaton(f)
@@ -611,6 +611,38 @@ def r10(ctx, fs):
         return False
     if not any(keeps(x) for x in walk(top) if id(x) in scope):
         raise AnalysisBroken('%s: the numeral arms do not build the literal by appending `ch`: a form this rule cannot read' % f.id)
+    def explore(f, A, starts):
+        g = A.g
+        for idx, (start, what, site, after) in enumerate(starts):
+            seen = set()
+            st = list(g.succ.get(start, [])) if after else [start]
+            bad = None
+            while st and bad is None:
+                n = st.pop()
+                if n in seen:
+                    continue
+                seen.add(n)
+                bid, i = n
+                if i is None:
+                    if bid == g.exit:
+                        bad = ('the function ends', None)
+                        break
+                    for sb in A._branch(bid, DIG):
+                        st.append((sb, 0) if (A.blocks[sb].get('elems') or []) else (sb, None))
+                    continue
+                t = g.tree(n)
+                if keeps(t):
+                    continue
+                if t is not None and (scan._is_read_assign(t) or (scan._is_next_char(t) and not A._is_rhs_of_read(t))):
+                    bad = ('the next character is read at %s' % short(t.get('loc')), t)
+                    break
+                if t is not None and t.get('k') == 'ReturnStmt':
+                    bad = ('the function returns at %s' % short(t.get('loc')), t)
+                    break
+                st.extend(g.succ.get(n, []))
+            ctx.instance(rid, [f.id, '%s #%d' % (what.split(' at ')[0], idx)], {'digit_in_ch': what, 'kept_on_every_path': bad is None, 'cfg_nodes_explored': len(seen)})
+            if bad is not None:
+                ctx.finding(rid, f.id, '%s #%d' % (what.split(' at ')[0], idx), '%s: a digit of a numeric literal is lost - with a digit in `ch` (%s) %s before the digit has been appended to the literal' % (f.name.replace('riddle::', ''), what, bad[0]), node=site)
     starts = []
     for n in g.nodes:
         t = g.tree(n)
@@ -625,36 +657,24 @@ def r10(ctx, fs):
         if sw is not top or not (b.get('elems') or []):
             continue
         starts.append(((bid, 0), 'entry of case %r' % chr(ln['case']), ln, False))
-    for idx, (start, what, site, after) in enumerate(starts):
-        seen = set()
-        st = list(g.succ.get(start, [])) if after else [start]
-        bad = None
-        while st and bad is None:
-            n = st.pop()
-            if n in seen:
-                continue
-            seen.add(n)
-            bid, i = n
-            if i is None:
-                if bid == g.exit:
-                    bad = ('the function ends', None)
-                    break
-                for sb in A._branch(bid, DIG):
-                    st.append((sb, 0) if (A.blocks[sb].get('elems') or []) else (sb, None))
-                continue
-            t = g.tree(n)
-            if keeps(t):
-                continue
-            if t is not None and (scan._is_read_assign(t) or (scan._is_next_char(t) and not A._is_rhs_of_read(t))):
-                bad = ('the next character is read at %s' % short(t.get('loc')), t)
-                break
-            if t is not None and t.get('k') == 'ReturnStmt':
-                bad = ('the function returns at %s' % short(t.get('loc')), t)
-                break
-            st.extend(g.succ.get(n, []))
-        ctx.instance(rid, [f.id, '%s #%d' % (what.split(' at ')[0], idx)], {'digit_in_ch': what, 'kept_on_every_path': bad is None, 'cfg_nodes_explored': len(seen)})
-        if bad is not None:
-            ctx.finding(rid, f.id, '%s #%d' % (what.split(' at ')[0], idx), 'lexer::next: a digit of a numeric literal is lost - with a digit in `ch` (%s) %s before the digit has been appended to the literal' % (what, bad[0]), node=site)
+    explore(f, A, starts)
+    # scanning loops of the numerals moved into helpers that the reviewed inventory does not know (their statements are in the tree of lexer::next, their
+    # CFG is their own): every read of a character in such a helper is a numeral state
+    for h in fs.defined():
+        if h.get('class') != 'riddle::lexer' or not h.d.get('_new_helper') or h.body is None:
+            continue
+        if not any(x.get('k') == 'CXXMemberCallExpr' and x.get('callee_name') in MK for x in h.nodes()):
+            continue
+        try:
+            HA = scan.Automaton(h)
+        except AnalysisBroken:
+            continue
+        hs = []
+        for n in HA.g.nodes:
+            t = HA.g.tree(n)
+            if t is not None and scan._is_read_assign(t):
+                hs.append((n, 'read at %s' % short(t.get('loc')), t, True))
+        explore(h, HA, hs)
 
 
 # ---- R6: scanner automata ------------------------------------------------------------------------------------------------------
